@@ -489,7 +489,31 @@ func typeCodeTotality(p *Prog, f *ssa.Function, res *RuleResult) {
 		fall    []int64
 	}
 	var chains []*chain
-	for _, b := range f.Blocks {
+	// the dispatch loops may sit in helpers of the reader (extract-function refactoring): look one and two
+	// calls deep; a helper's error result reaches the reader's caller by rule B1
+	scope := []*ssa.Function{f}
+	seenFn := map[*ssa.Function]bool{f: true}
+	for i := 0; i < len(scope) && i < 12; i++ {
+		for _, b := range scope[i].Blocks {
+			for _, ins := range b.Instrs {
+				if c, ok := ins.(*ssa.Call); ok {
+					if g := c.Call.StaticCallee(); g != nil && g.Blocks != nil && fnPkgPath(g) == fnPkgPath(f) && !seenFn[g] && errResultIndex(g.Signature) >= 0 {
+						seenFn[g] = true
+						scope = append(scope, g)
+					}
+				}
+			}
+		}
+	}
+	var allBlocks []*ssa.BasicBlock
+	owner := map[*ssa.BasicBlock]*ssa.Function{}
+	for _, g := range scope {
+		for _, b := range g.Blocks {
+			allBlocks = append(allBlocks, b)
+			owner[b] = g
+		}
+	}
+	for _, b := range allBlocks {
 		for _, ins := range b.Instrs {
 			ld, ok := ins.(*ssa.UnOp)
 			if !ok || ld.Op != token.MUL {
@@ -525,7 +549,7 @@ func typeCodeTotality(p *Prog, f *ssa.Function, res *RuleResult) {
 				for steps := 0; steps < 64; steps++ {
 					last := blk.Instrs[len(blk.Instrs)-1]
 					if r, ok := last.(*ssa.Return); ok {
-						if failureReturn(f, r) {
+						if failureReturn(owner[blk], r) {
 							outcome = "err"
 						}
 						break
